@@ -66,8 +66,120 @@ def run(tier):
     from . import c08
     for ty in TYPES:
         c08.check_type(chk, F, ty, thorough=False)
+    interface_deps(chk, F)
+    dual_lifting(chk, F, bodies)
+    chk.floor("dual-mode liftings", chk.analysed.get("dual-mode liftings", 0), 300)
     chk.floor("bessel bodies", chk.analysed.get("bessel bodies", 0), 3)
     return chk.finish()
+
+
+LIFT_SAMPLES = [("zero", Fr(0)), ("tiny+", Fr(1, 10 ** 6)), ("tiny-", Fr(-1, 10 ** 6)), ("mid+", Fr(1)), ("mid-", Fr(-1))]
+# (the asymptotic arm beyond |x| = 5 is not lifted in dual mode: its canonical forms with sin / cos / sqrt of shifted arguments take
+# minutes per type; the interface items it is built from bring their own rule sets, see interface_deps)
+
+
+def signed_zero_oracle(env):
+    """like sample_oracle, but a real part that evaluates to 0 has either sign bit: the sign predicates stay free there (both the +0.0 and
+    the -0.0 outcome are explored), because `is_positive` / `is_negative` of a float are sign-bit tests"""
+    from .common import _poly_from_key_cache as cache
+    base = sample_oracle(env)
+
+    def oracle(key, descr, ctx):
+        if key[0] == "pred" and key[1] in ("is_positive", "is_negative", "is_sign_positive", "is_sign_negative"):
+            p = cache.get(key[2])
+            if p is not None and eval_poly(p, env) == 0:
+                return None
+        return base(key, descr, ctx)
+    return oracle
+
+
+def dual_lifting(chk, F, bodies, types=None, samples=None):
+    """(2') what purity promises, decided on the bodies themselves: interpreted on a full dual operand (every part symbolic, every presence
+    pattern) along the path taken for a real part in each region -- at a zero real part along the paths of both signs of zero -- every part
+    of bessel_jn is the formal derivative of the real function the same path computes (scalar interpretation of the same body), composed
+    with the operand's parts.  A reflection / shortcut that returns the right real value but drops, replaces or re-signs derivative
+    parts on some path (for instance an `abs` that yields a plain zero at -0.0) fails here."""
+    from .algebra import X
+    for n in (0, 1, 2):
+        body = bodies.get("bessel_j%d" % n)
+        if body is None:
+            continue
+        for sname, sval in (samples or LIFT_SAMPLES):
+            key1 = "bessel|j%d|lift|%s" % (n, sname)
+            # the real function of this region, explicit (tables expanded), from the scalar interpretation of the same body
+            try:
+                env1 = {XA: sval, ("c", "EPS"): EPS_VALUE}
+
+                def thunk(ctx):
+                    it = Interp(F, DOMK, ctx=ctx)
+                    it.scalar_mode = True
+                    return it.call_body(body, [Sc(XR)])
+                sp_paths = explore(thunk, sample_oracle(env1))
+            except Unsupported as ex:
+                chk.undecide(key1, "unsupported: %s" % ex, body_loc(F, body))
+                continue
+            if len(sp_paths) != 1 or not isinstance(unref(sp_paths[0][1]), Sc):
+                chk.undecide(key1, "the scalar interpretation has %d paths" % len(sp_paths), body_loc(F, body))
+                continue
+            sgn = 1 if sval >= 0 else -1
+            P = resolve_sign(unref(sp_paths[0][1]).v, sgn).subst(lambda a: X if a == XA else None)
+            for ty in (types or TYPES):
+                for pa in presence_patterns(ty):
+                    sp = Spec(ty, absent_set("self", pa))
+                    key0 = "%s|%s|presence=%s" % (key1, ty, pres_tag(pa))
+                    env = {("v", "self.re", ()): sval, ("c", "EPS"): EPS_VALUE}
+                    try:
+                        paths = run_paths(F, body, lambda: [sp.operand("self", pa)], oracle=signed_zero_oracle(env))
+                        want = sp.spec_of_real(P)
+                    except Unsupported as ex:
+                        chk.undecide(key0, "unsupported: %s" % ex, body_loc(F, body))
+                        continue
+                    for ctx, val, it, args in paths:
+                        key = key0 if len(paths) == 1 else key0 + "|path=" + path_descr(ctx)
+                        if isinstance(val, PanicEx):
+                            chk.ob(key, False, "bessel_j%d is total" % n, body_loc(F, body), found="panic: %s" % val.what)
+                            continue
+                        try:
+                            compare_parts(chk, key, "bessel_j%d on %s (real part %s): every part is the formal derivative of the real function "
+                                          "computed on this path, composed with the operand's parts" % (n, ty, sname), body_loc(F, body), sp,
+                                          val, want)
+                            chk.count("dual-mode liftings")
+                        except Unsupported as ex:
+                            chk.undecide(key, "unsupported: %s" % ex, body_loc(F, body))
+
+
+def interface_deps(chk, F):
+    """purity reduces the derivative parts of the Bessel routines to those of the interface items they call; the items other than the
+    arithmetic are looked up in the bodies (resolved callees) and each brings its own rule set: the sign items of `Signed`
+    (abs / signum must be +-self resp. a constant on EVERY path, including the paths taken at a zero real part, where J_n is smooth)
+    and the elementary functions of `DualNum` (whole-method liftings, every part, every presence pattern)."""
+    from . import c01
+    from .algebra import X, real_fn, UNARY
+    called = set()
+    for b in F.bodies.values():
+        if not b["path"].startswith("bessel::"):
+            continue
+        for e in walk.walk_body(b):
+            c = walk.callee_of(e)
+            if c and c.get("trait") and c.get("name"):
+                called.add((c["trait"].split("::")[-1], c["name"]))
+    if any(t == "Signed" and n in ("abs", "signum", "abs_sub") for t, n in called):
+        for ty in TYPES:
+            # (the paths of `abs` at a zero real part are left out here: |x| has a kink there and is not constrained by itself; whether the
+            # Bessel routines lose derivative parts through them is decided on the Bessel bodies by dual_lifting)
+            c01.check_signed(chk, F, ty, zero_paths=False)
+        chk.count("interface items with their own rule set")
+    for t, n in sorted(called):
+        if t != "DualNum":
+            continue
+        if n in UNARY or n in ("tan", "tanh"):
+            for ty in TYPES:
+                algebra.end_to_end(chk, F, ty, n, "lift", lambda ctx, n=n: real_fn(n, X))
+            chk.count("interface items with their own rule set")
+        elif n == "sin_cos":
+            for ty in TYPES:
+                c01.check_sin_cos(chk, F, ty)
+            chk.count("interface items with their own rule set")
 
 
 def eval_at(F, body, sample):
